@@ -286,7 +286,9 @@ class Pool:
         for each finished task.  Tasks not started before ``deadline`` are dropped.
         A worker that dies or exceeds the hard cap is respawned; its current task is
         reported as inconclusive."""
-        pending = [list(q) for q in queues]
+        from collections import deque
+
+        pending = [deque(q) for q in queues]
         current: list = [None] * self.n
         started: list = [0.0] * self.n
         dropped = 0
@@ -296,10 +298,10 @@ class Pool:
             if pending[w]:
                 if deadline is not None and boot.REAL_TIME() > deadline:
                     dropped += len(pending[w])
-                    pending[w] = []
+                    pending[w] = deque()
                     current[w] = None
                     return
-                t = pending[w].pop(0)
+                t = pending[w].popleft()
                 current[w] = t
                 started[w] = boot.REAL_TIME()
                 self.conns[w].send(t)
@@ -571,8 +573,15 @@ def run_batch(prop: str, sim_name: str, tier: str, cfg: dict, meta: dict):
         lines.append("VIOLATION property=%s replay=%s signature=%s runs=%d replay_reproduces=%s" % (prop, replay_paths.get(sig, "?"), sig, len(ss), replay_ok.get(sig)))
         exit_code = 1
     harness_msgs = []
+    warn_msgs = []
     if mismatches:
-        harness_msgs.append("determinism mismatches for seeds %s" % mismatches[:10])
+        msg = "determinism mismatches for seeds %s (%d of %d re-executed runs)" % (mismatches[:10], len(mismatches), pairs)
+        # isolated mismatches are reported (evidence + warning line); only systematic
+        # nondeterminism makes the batch untrustworthy
+        if len(mismatches) > max(1, 0.1 * pairs):
+            harness_msgs.append(msg)
+        else:
+            warn_msgs.append(msg)
     if harness_errors:
         harness_msgs.append("%d harness errors, first: seed=%s %s" % (len(harness_errors), harness_errors[0]["seed"], (harness_errors[0]["error"] or "")[-1500:]))
     if n_exec == 0:
@@ -618,7 +627,7 @@ def run_batch(prop: str, sim_name: str, tier: str, cfg: dict, meta: dict):
             "violations": {sig: {"runs": len(ss), "replay": replay_paths.get(sig), "replay_reproduces": replay_ok.get(sig)} for sig, ss in unknown.items()},
             "front_end_memo": "ANTLR parse tree memoised per spec text inside each worker",
             "bounds": meta.get("bounds", {}),
-            "harness_messages": harness_msgs,
+            "harness_messages": harness_msgs + warn_msgs,
         },
         "assumptions": meta.get("assumptions", []),
         "wall_s": round(wall_total, 2),
@@ -628,6 +637,8 @@ def run_batch(prop: str, sim_name: str, tier: str, cfg: dict, meta: dict):
         print(ln)
     for m in harness_msgs:
         print("HARNESS-ERROR: " + m)
+    for m in warn_msgs:
+        print("HARNESS-WARNING: " + m)
     print(
         "summary %s[%s]: executed=%d nontrivial_distinct=%d inconclusive=%d dropped=%d known=%d violations=%d determinism=%d/%d wall=%.1fs runs/h=%d"
         % (prop, sim_name, n_exec, len(nontrivial_digests), inconclusive, dropped, len(known_seen), len(unknown), pairs - len(mismatches), pairs, wall_total, evidence["coverage"]["runs_per_hour"]),
